@@ -313,7 +313,7 @@ func TestC14Strace(t *testing.T) {
 		scratch = t.TempDir()
 	}
 	os.MkdirAll(scratch, 0o755)
-	calls := []string{"pwrite64", "fsync", "write", "ftruncate"}
+	calls := []string{"pwrite64", "fsync", "write", "ftruncate", "fcntl", "unlink"}
 	maxN := run.Scale(40, 400)
 	stepQuick := run.Scale(3, 1)
 	idx := 0
